@@ -2,7 +2,7 @@ from outsourcer import Code
 
 from . import utils
 from .base import Expression
-from .constants import BREAK, POS, RESULT
+from .constants import BREAK, POS, RESULT, STATUS
 
 
 class Seq(Expression):
@@ -49,6 +49,10 @@ class Seq(Expression):
 
             result = items if self.constructor is None else self.constructor(*items)
             out += RESULT << result
+
+            # An empty sequence succeeds (and nothing else has set the status).
+            if not self.exprs:
+                out += STATUS << True
 
             if self.needs_parse_info:
                 out += RESULT._metadata.position_info << (start_pos, POS)
